@@ -42,10 +42,10 @@ var Check = &run.Check{
 	Rule: "case = generated JUnit-style tree: 1-4 test classes (*Test.java / *Tests.java, or any name under [module/]src/test/java/<package dirs>) + 0-2 production classes with the same patterns, in flat / nested-package / Maven layouts; ordinary names containing TestData / Testdata / testdata occur as class names (1 in 7) and as package directories (1 in 6 of the nested / Maven trees), the documented exclusion spelling testData never; " +
 		"every class has 1-5 methods annotated @Test / @Ignore / both in either order (own lines, one line, on the declaration line, comments between, one annotation over several lines; with and without annotation arguments), 0-3 helper methods with or without assertions " +
 		"(called unqualified, this-qualified or class-qualified), other methods without @Test/@Ignore (also @Before/@After/... and annotations whose names merely end in Test / Ignore: @BeforeTest, @AfterTest, @JsonIgnore, @XmlIgnore, on helpers too) carrying the same patterns, and a static method other test classes call; in nested / Maven layouts 3 of 10 trees also hold two test classes of the SAME simple name in different packages, each with a helper of the same name (one asserting, one not) and a test that reaches an assertion only through it; " +
-		"test bodies are assembled from planted evidence in random order, each call recorded with its line: System.out.print/println/printf x0-7, Thread.sleep x0-5, two-argument calls with identical arguments x0-3 (assertions and plain calls), " +
+		"test bodies are assembled from planted evidence in random order, each call recorded with its line: System.out.print/println/printf x0-7, Thread.sleep x0-5, two-argument calls with identical arguments x0-3 (assertions and plain calls; also with arguments longer than 64 characters, identical or differing only near their end), " +
 		"assertion methods of each of the seven documented prefixes (unqualified, receiver, static-qualified, chained, nested in arguments) with multiplicities 1-7 (4/5/6 emphasised), plain calls (also one plain method x5-7), " +
 		"look-alikes (System.err.println, System.out.flush/format, writer.println, timer.sleep, TimeUnit.SECONDS.sleep, Thread.yield), new expressions, 1 file in 5 starts with 1-3 empty / white-space-only lines, commented-out evidence, blocks (if/for/try), two statements on a line, argument lists continued on the next line; " +
-		"bodies with no call, exactly one call, exactly two calls are drawn deliberately. Observed: TbsApp.AnalysisPath wired as cmd/tbs.go does; every Nth case the CLI in four configurations in turn (`coca tbs -p ABSDIR`, the same with --sort, `coca tbs -p .` and `coca tbs -p src/test/java` with the project directory as working directory; the relative ones mostly on Maven trees whose src/ is in the root and that hold a test class without the Test/Tests suffix): coca_reporter/tbs.json, the printed count and table. " +
+		"bodies with no call, exactly one call, exactly two calls are drawn deliberately. Observed: TbsApp.AnalysisPath wired as cmd/tbs.go does (the directory mostly as absolute path, in 2 of 7 cases with a trailing separator or as DIR/zzcwd/..); every Nth case the CLI in twelve configurations in turn: the project directory spelled abs, abs --sort, abs-slash, rel, dot-rel, rel-slash, dot, dotdot, sub-dotdot, via-sibling (common.SpellRoot, working directory chosen accordingly), and `-p .` / `-p src/test/java` from the root of a Maven tree that holds a test class without the Test/Tests suffix: coca_reporter/tbs.json, the printed count and table. " +
 		"non-trivial = >= 1 test method with >= 2 different kinds of evidence and >= 1 method or file that must yield nothing; distinct = hash of the tree shape (layout, roles, annotation forms, per-method evidence multiset; no names or literals)",
 	Assumptions: []string{
 		"every generated file is accepted by coca's own Java parser (rejects are counted as inconclusive)",
@@ -79,13 +79,36 @@ func first(s string) string {
 	return strings.ReplaceAll(s, "\n", " / ")
 }
 
+// cliConfig is one way of calling `coca tbs` on the generated project.
+type cliConfig struct {
+	spell     int    // common.SpellRoot pick (kind of spelling of the project directory); -1: special
+	special   string // "src/test/java": working directory = project, -p src/test/java
+	sort      bool
+	mavenRoot bool // generate a Maven tree with src/ in the root and a test class that is one by directory only
+}
+
+var cliConfigs = []cliConfig{
+	{spell: 0},                  // abs
+	{spell: 0, sort: true},      // abs --sort
+	{spell: 5, mavenRoot: true}, // dot, on a Maven root
+	{spell: -1, special: "src/test/java", mavenRoot: true},
+	{spell: 1}, // abs-slash
+	{spell: 2}, // rel
+	{spell: 3}, // dot-rel
+	{spell: 6}, // dotdot
+	{spell: 7}, // sub-dotdot
+	{spell: 8}, // via-sibling
+	{spell: 4}, // rel-slash
+	{spell: 5}, // dot, any layout
+}
+
 func runCase(c *run.Ctx, o *run.Outcome) {
-	// CLI slice: every Nth case; four configurations in turn: absolute root, absolute root --sort, the project
-	// directory as working directory with `-p .`, the same with `-p src/test/java`
+	// CLI slice: every Nth case, twelve configurations in turn (see cliConfigs): the project directory named in every
+	// legal way (common.SpellRoot), --sort, and two special ones on a Maven tree whose src/ lies in the working directory
 	useCLI := c.CocaBin != "" && c.Index%cliEvery(c.Tier) == 0
-	cliVariant := (c.Index / cliEvery(c.Tier)) % 4
+	cfg := cliConfigs[(c.Index/cliEvery(c.Tier))%len(cliConfigs)]
 	var opt testsmellgen.Opts
-	if useCLI && (cliVariant == 3 || (cliVariant == 2 && (c.Index/cliEvery(c.Tier)/4)%2 == 0)) {
+	if useCLI && cfg.mavenRoot {
 		opt.MavenRoot = true // src/test/java directly below the working directory, with a class that is a test file by directory only
 	}
 	t := testsmellgen.GenerateWith(c.Rng, opt)
@@ -120,12 +143,8 @@ func runCase(c *run.Ctx, o *run.Outcome) {
 		}
 	}
 	sort.Strings(plantedTestFiles)
-	relOf := func(name string) string {
-		if !filepath.IsAbs(name) {
-			name = filepath.Join(dir, name) // relative roots: the CLI runs with the project directory as working directory
-		}
-		return absToRel[filepath.Clean(name)]
-	}
+	resolveFrom := dir // working directory of the command whose report is read (relative file names are relative to it)
+	relOf := func(name string) string { return absToRel[common.AbsFrom(resolveFrom, name)] }
 
 	// what the monitor is looking at
 	expected := oracle.TbsExpected(t)
@@ -188,6 +207,13 @@ func runCase(c *run.Ctx, o *run.Outcome) {
 				if call.Kind == testsmellgen.KindHelper {
 					o.Seen("helper_call_forms", call.Form)
 				}
+				if call.NArgs == 2 && strings.HasSuffix(call.Form, "long-arguments") {
+					if call.Identical {
+						o.Count("planted_two_argument_calls_long_identical_arguments", 1)
+					} else {
+						o.Count("planted_two_argument_calls_long_arguments_differing_near_the_end", 1)
+					}
+				}
 			}
 			if n, _ := oracle.TbsMaxSameAssertion(m); n >= 3 {
 				o.Count("test_methods_same_assertion_x"+capN(n, 7), 1)
@@ -238,25 +264,30 @@ func runCase(c *run.Ctx, o *run.Outcome) {
 	o.NonTrivial = richMethod && mustBeSilent
 
 	var observed []oracle.TbsFinding
+	rootSig := "" // how the analysed directory was spelled (CLI cases, and the in-process cases with an unusual spelling)
 	witness := map[string]interface{}{"files": files, "layout": t.Layout, "expected": expectList(expected)}
 	o.Witness = witness
 	if useCLI {
 		o.Count("cli_cases", 1)
-		sorted := cliVariant == 1
-		cwd := c.Scratch() // fresh per case: `coca tbs` caches identifiers in coca_reporter/ below its working directory
-		args := []string{"tbs", "-p", dir}
-		switch cliVariant {
-		case 1:
+		sorted := cfg.sort
+		// fresh per case: `coca tbs` caches identifiers in coca_reporter/ below its working directory
+		var cwd, rootArg, kind string
+		if cfg.spell >= 0 {
+			cwd, rootArg, kind = common.SpellRoot(cfg.spell, dir, c.Scratch())
+		} else {
+			cwd, rootArg, kind = dir, cfg.special, "rel-subdir-"+strings.ReplaceAll(cfg.special, "/", "-")
+		}
+		resolveFrom = cwd
+		args := []string{"tbs", "-p", rootArg}
+		if sorted {
 			args = append(args, "--sort")
 			o.Count("cli_cases_with_sort", 1)
-		case 2:
-			cwd, args = dir, []string{"tbs", "-p", "."}
-			o.Count("cli_cases_relative_root_dot", 1)
-		case 3:
-			cwd, args = dir, []string{"tbs", "-p", "src/test/java"}
-			o.Count("cli_cases_relative_root_src_test_java", 1)
 		}
-		if cliVariant >= 2 {
+		o.Count("cli_root_spelled_"+kind, 1)
+		o.Seen("cli_root_spellings", kind)
+		rootSig = "/root-spelled-" + kind
+		if cfg.mavenRoot {
+			o.Count("cli_cases_on_maven_root_tree", 1)
 			for _, f := range t.Files {
 				if f.Role == testsmellgen.RoleTestByDir && strings.HasPrefix(f.RelPath, "src/test/java/") {
 					o.Count("cli_relative_root_test_files_by_directory_only", 1)
@@ -270,19 +301,19 @@ func runCase(c *run.Ctx, o *run.Outcome) {
 			return
 		}
 		if res.ExitCode != 0 || strings.Contains(res.Stderr, "panic:") {
-			o.Violate("cli-crash", "`coca tbs` exit %d: %s", res.ExitCode, first(res.Stderr))
+			o.Violate("cli-crash"+rootSig, "`coca tbs` exit %d: %s", res.ExitCode, first(res.Stderr))
 			return
 		}
 		b, err := ioutil.ReadFile(filepath.Join(cwd, "coca_reporter", "tbs.json"))
 		if err != nil {
-			o.Violate("cli-no-output", "`coca tbs` did not write coca_reporter/tbs.json: %v", err)
+			o.Violate("cli-no-output"+rootSig, "`coca tbs` did not write coca_reporter/tbs.json: %v", err)
 			return
 		}
 		var list []tbsJSON
 		if sorted {
 			var byType map[string][]tbsJSON
 			if err := json.Unmarshal(b, &byType); err != nil {
-				o.Violate("cli-unreadable-output", "tbs.json (--sort) is not a map of finding lists: %v: %s", err, first(string(b)))
+				o.Violate("cli-unreadable-output"+rootSig, "tbs.json (--sort) is not a map of finding lists: %v: %s", err, first(string(b)))
 				return
 			}
 			var keys []string
@@ -293,13 +324,13 @@ func runCase(c *run.Ctx, o *run.Outcome) {
 			for _, k := range keys {
 				for _, e := range byType[k] {
 					if e.Type != k {
-						o.Violate("cli-sort-group-holds-other-type", "tbs.json --sort: group %q holds a finding of type %q", k, e.Type)
+						o.Violate("cli-sort-group-holds-other-type"+rootSig, "tbs.json --sort: group %q holds a finding of type %q", k, e.Type)
 					}
 					list = append(list, e)
 				}
 			}
 		} else if err := json.Unmarshal(b, &list); err != nil {
-			o.Violate("cli-unreadable-output", "tbs.json is not a list of findings: %v: %s", err, first(string(b)))
+			o.Violate("cli-unreadable-output"+rootSig, "tbs.json is not a list of findings: %v: %s", err, first(string(b)))
 			return
 		}
 		for _, e := range list {
@@ -307,21 +338,36 @@ func runCase(c *run.Ctx, o *run.Outcome) {
 		}
 		rows, total, hasTotal := oracle.TbsParseTable(res.Stdout)
 		if !hasTotal || total != len(observed) {
-			o.Violate("cli-printed-count-differs", "printed count %d (present=%v), tbs.json holds %d findings", total, hasTotal, len(observed))
+			o.Violate("cli-printed-count-differs"+rootSig, "printed count %d (present=%v), tbs.json holds %d findings", total, hasTotal, len(observed))
 		}
 		if len(observed) <= 20 {
 			o.Count("cli_tables_compared", 1)
 			if !oracle.TbsSameMultiset(rows, observed) {
-				o.Violate("cli-table-differs-from-json", "table rows %v, tbs.json %v", rows, observed)
+				o.Violate("cli-table-differs-from-json"+rootSig, "table rows %v, tbs.json %v", rows, observed)
 			}
 		} else if len(rows) > 0 {
 			o.Count("cli_tables_beyond_20", 1)
 		}
 	} else {
 		var selected []string
+		// the in-process wiring takes a directory: mostly the absolute path, sometimes another legal spelling of it
+		walkRoot := dir
+		switch c.Index % 7 {
+		case 2:
+			walkRoot = dir + string(filepath.Separator)
+			rootSig = "/root-spelled-abs-slash"
+		case 4:
+			os.MkdirAll(filepath.Join(dir, "zzcwd"), 0o755)
+			walkRoot = filepath.Join(dir, "zzcwd") + string(filepath.Separator) + ".."
+			rootSig = "/root-spelled-sub-dotdot"
+		}
+		if rootSig != "" {
+			o.Count("inprocess_root_spelled_"+strings.TrimPrefix(rootSig, "/root-spelled-"), 1)
+		}
+		witness["root"] = walkRoot
 		panicked, val, site := run.Guard(func() {
 			// as cmd/tbs.go: test files -> identifiers of the test files -> full pass over the test files -> TbsApp
-			selected = cocafile.GetJavaTestFiles(dir)
+			selected = cocafile.GetJavaTestFiles(walkRoot)
 			identifierApp := javaapp.NewJavaIdentifierApp()
 			identifiers := identifierApp.AnalysisFiles(selected)
 			identifiersMap := core_domain.BuildIdentifierMap(identifiers)
@@ -339,11 +385,11 @@ func runCase(c *run.Ctx, o *run.Outcome) {
 		// "computed from the test files only"
 		got := append([]string{}, selected...)
 		for i := range got {
-			got[i] = filepath.Clean(got[i])
+			got[i] = common.AbsFrom(dir, got[i])
 		}
 		sort.Strings(got)
 		if strings.Join(got, "\n") != strings.Join(plantedTestFiles, "\n") {
-			o.Violate("test-file-selection", "files selected %v, planted test files %v", got, plantedTestFiles)
+			o.Violate("test-file-selection"+rootSig, "files selected %v, planted test files %v", got, plantedTestFiles)
 		}
 	}
 	witness["observed"] = observed
@@ -355,8 +401,18 @@ func runCase(c *run.Ctx, o *run.Outcome) {
 	for typ, n := range st.Observed {
 		o.Count("observed_"+typ, n)
 	}
+	// first (a case keeps at most 20 violations): the whole report is empty although findings are expected
+	if rootSig != "" && len(observed) == 0 && len(expected) > 0 {
+		o.Violate("report-empty-though-findings-expected"+rootSig, "no finding reported, %d expected (directory given as in witness)", len(expected))
+	}
 	for _, m := range ms {
-		o.Violate(m.Sig, "%s", m.Msg)
+		sig := m.Sig
+		// mismatches about which file a finding names depend on how the directory was spelled: say so in the signature
+		// (the per-method signatures stay as they are: they do not depend on the spelling)
+		if strings.HasPrefix(sig, "finding-names-unknown-file/") || strings.HasPrefix(sig, "finding-without-file-name/") {
+			sig += rootSig
+		}
+		o.Violate(sig, "%s", m.Msg)
 	}
 	if c.Index < 64 {
 		var names []string
